@@ -5,7 +5,7 @@
    object state).  [fx]/[fs] = true is the repaired code (see current_fx/current_fs). *)
 From Coq Require Import List NArith Arith Bool.
 From HV Require Import Base.Res Base.Str Model.Defs Model.DefStore Model.DefObj
-  Proofs.DefsProofs Proofs.DefObjProofs.
+  Proofs.DefsProofs Proofs.DefsCanon Proofs.DefObjProofs Proofs.DefLayers.
 Import ListNotations.
 
 (* ---- acceptance ---------------------------------------------------------- *)
@@ -73,17 +73,26 @@ Proof. exact shrink_expand_t. Qed.
 Print Assumptions C09_shrink_expand_t.
 
 (* ---- Def-expand validation -------------------------------------------------
-   Full statement:
-     defexpand_accepted D t g = true  <->  g equals (t, content[# := v]) up to
-     sibling order at every level ([lsim]: same tags by HedTag.__eq__, members of
-     every group in any order).
-   Current code (fs = true: both sides sorted() before the comparison, commit
-   cbb8087): the "->" direction is proved for ALL inputs; the "<-" direction is
-   proved exhaustively for every sibling order of one nested definition and is
-   otherwise tested (a general proof needs that printing is injective on the
-   nodes involved, i.e. tag texts without ',', '(' and ')', which the abstract
-   model does not assume). *)
+   Full statement, proved for the current code (fs = true: both sides sorted()
+   before the comparison, commit cbb8087) and ALL inputs:
+     validation accepts a Def-expand group exactly when its content equals
+     (t, content[# := v]) up to sibling order at every level
+   ([lsim]: same tags by HedTag.__eq__, members of every group in any order).
+   The "<-" direction needs that HedGroup.sorted() computes a canonical form, i.e.
+   that printing of canonical forms is injective; that holds when tag texts are
+   non-empty and free of ',', '(' and ')' ([wfl], what the parser produces -- C02's
+   split_content/tagbody) and is the C04 theorem ckey_inj, reused here together
+   with the C04 stable-sort lemmas. *)
+Theorem C09_defexpand_valid_iff : forall D t g,
+  wfl g = true ->
+  (defexpand_accepted true D t g = true <->
+   exists e ch, def_entry D t = Some e /\
+                get_definition e t (def_placeholder t) = Ok (Some ch) /\
+                lsim g ch).
+Proof. exact defexpand_valid_iff. Qed.
+Print Assumptions C09_defexpand_valid_iff.
 
+(* the "->" direction holds without the well-formedness hypothesis *)
 Theorem C09_defexpand_valid_sound : forall D t g,
   defexpand_accepted true D t g = true ->
   exists e ch, def_entry D t = Some e /\
@@ -91,17 +100,6 @@ Theorem C09_defexpand_valid_sound : forall D t g,
                lsim g ch.
 Proof. exact defexpand_valid_sound. Qed.
 Print Assumptions C09_defexpand_valid_sound.
-
-(* "<-" on a finite family: all 24 spellings (both levels, tag first or last) of
-   the expansion of (Definition/MyDef,(Red,Blue,(Green,Square))) are accepted, a
-   group with different content is not *)
-Theorem C09_defexpand_complete_bounded :
-  length spellings3 = 24 /\
-  (forall g, In g spellings3 -> defexpand_accepted true ex_dict3 (tg BDefExpand s_mydef) g = true) /\
-  defexpand_accepted true ex_dict3 (tg BDefExpand s_mydef)
-    [T (tg BDefExpand s_mydef); G [t_red; t_blue; G [t_green; t_green]]] = false.
-Proof. exact defexpand_complete_bounded. Qed.
-Print Assumptions C09_defexpand_complete_bounded.
 
 (* Record of the repaired defect C09-F2 (fs = false: the ordered comparison used
    before commit cbb8087): the spelling of the definition itself is rejected, its
@@ -174,14 +172,16 @@ Proof. exact expand_twice_fixed. Qed.
 Print Assumptions C09_expand_twice_fixed.
 
 (* Interleaving theorem for the repaired code, ownership-tree layer: for EVERY
-   sequence of expand / shrink / copy / validate from any invariant state the
+   sequence of expand / shrink / copy / validate / swap (continue on the object
+   the working one was copied from) from any invariant state of all live objects the
    invariant is kept and the object prints as the spec-level run; an exception
    (KeyError of shrink_defs on a group with two Def-expand tags) occurs exactly
    when the spec-level run has it.  By induction on the op list. *)
-Theorem C09_interleaving : forall D, wf_dict D = true -> forall ops f, InvF D f ->
-  match run_o true D ops f with
-  | Ok f' => InvF D f' /\ run_t D ops (map abs_p f) = Ok (map abs_p f') /\ abs_of f' = Ok (map abs_p f')
-  | Exn e => run_t D ops (map abs_p f) = Exn e
+Theorem C09_interleaving : forall D, wf_dict D = true -> forall ops st, InvS D st ->
+  match run_os true D ops st with
+  | Ok st' => InvS D st' /\ run_ts D ops (abs_st st) = Ok (abs_st st') /\
+              abs_of (fst st') = Ok (map abs_p (fst st'))
+  | Exn e => run_ts D ops (abs_st st) = Exn e
   end.
 Proof. exact interleaving. Qed.
 Print Assumptions C09_interleaving.
@@ -191,14 +191,29 @@ Theorem C09_load_inv : forall D f, InvF D (load_o f) /\ map abs_p (load_o f) = f
 Proof. exact load_inv. Qed.
 Print Assumptions C09_load_inv.
 
-(* heap layer = ownership-tree layer, kernel-evaluated on a finite family: both
-   switches, the two witnesses, every op sequence over {expand,shrink,copy} of
-   length <= 4 (beyond that: differential testing of both layers on every case) *)
-Theorem C09_layers_agree_bounded :
-  forall fx f ops, In fx [false; true] -> In f [ex_ann; ex_ann2] -> In ops (all_ops 4) ->
-  layers_agree fx ex_dict f ops = true.
-Proof. exact layers_agree_bounded. Qed.
-Print Assumptions C09_layers_agree_bounded.
+(* Heap layer (the pointer-level model) vs. ownership-tree layer.
+   copy, ALL heaps: the deep copy prints as the original and the original, still
+   reachable, prints as before (so "copy = the same ownership tree" is what the
+   heap model does). *)
+Theorem C09_copy_abs : forall s f,
+  abs s = Ok f -> abs (copy s) = Ok f /\ abs (swap (copy s)) = Ok f.
+Proof. exact copy_abs. Qed.
+Print Assumptions C09_copy_abs.
+
+(* expand_defs / shrink_defs (pointer surgery vs. structural recursion): NOT proved
+   in general.  Kernel-evaluated on an enumerated family: 190 annotations (every
+   leaf of {Def/MyDef, Def/P/3, Def/P, Def/U, Def-expand/MyDef, Red} and four
+   written Def-expand groups, alone, in pairs, grouped, nested twice) x every op
+   sequence over {expand, shrink, copy, swap} of length <= 4 for the code as it is
+   (<= 3 for the unrepaired code): same text, same _expandable/_expanded flags of
+   every reachable tag, same exceptions.  Beyond that both layers are run in the
+   driver on every generated case and each is compared with the implementation. *)
+Theorem C09_layers_agree_family :
+  length fam_forests = 190 /\
+  (forall f ops, In f fam_forests -> In ops (all_ops 4) -> layers_agree2 true fam_dict f ops = true) /\
+  (forall f ops, In f fam_forests -> In ops (all_ops 3) -> layers_agree2 false fam_dict f ops = true).
+Proof. exact layers_agree_family. Qed.
+Print Assumptions C09_layers_agree_family.
 
 (* non-vacuity: a dictionary built by the acceptance code is well formed, the
    loaded witness satisfies the invariant, and it really expands *)
